@@ -43,9 +43,31 @@ package core
 //@   flags trusted
 //@   modifies m.Id, m.Type, m.Owner, m.Body, m.RspBody, m.Done, m.Error, m.Fd2Slot, m.Keys, m.Frags, m.Frags2, m.FragDoneNumber, m.DelNum, m.prev, m.next
 
-//@ func elastic.RingBuffer.Write
-//@   flags trusted
-//@   modifies elastic.RingBuffer.rb, ring.Buffer.buf, ring.Buffer.size, ring.Buffer.r, ring.Buffer.w, ring.Buffer.isEmpty
+//@ define alldone(l) = forall i int :: 0 <= i && i < l.count ==> mqm(l, i).Done
+//@ define cl(c) = c.inMsgQueue
+
+// eventloop.sread: one backend reply at a time; when it completes the last outstanding request of its client,
+// every queued reply of that client is written in queue order, exactly once, and the requests are recycled.
+// The representation invariants of the objects an iteration starts from (the backend connection's awaiting-reply
+// queue, the owning client's request queue) are assumed at the calls that first use them: they are properties of
+// the whole object graph, each queue operation being verified to preserve them for its own queue.
+//@ func eventloop.sread
+//@   props WIP
+//@   requires s != nil && s.loop != nil && EngineGlobal != nil && el.eventHandler != nil && s.opened
+//@   assume at call conn.sread#0 :: s.inFragQueue != nil && fwf(s.inFragQueue)
+//@   assume at call conn.sread#0 :: (hd(s) != nil && hd(s).Peer != nil) ==> (forall k int32 :: has(hd(s).Peer.Body, k) ==> hd(s).Peer.Body[k] != nil)
+//@   assume at call conn.sread#0 :: (hd(s) != nil && hd(s).Peer != nil) ==> (hd(s).Peer.RspBody == nil || hd(s).RspBody == nil || hd(s).RspBody.base != hd(s).Peer.RspBody.base)
+//@   label G at call MsgQueue.Empty#0
+//@   assume at call MsgQueue.Empty#0 :: cl(c) != nil && mwf(cl(c)) && c.loop != nil
+//@   loop 0
+//@     invariant s != nil && s.loop != nil && EngineGlobal != nil && el.eventHandler != nil
+//@     invariant[gate@C09] reached(G) ==> (atlabel(G, alldone(cl(c))) ==> (!c.opened || cl(c).count == 0))
+//@   loop 1
+//@     invariant true
+//@   loop 2
+//@     invariant true
+//@   loop 3
+//@     invariant true
 
 //@ func eventloop.cread
 //@   props WIP
